@@ -458,10 +458,10 @@ Proof.
         replace (bare_of pre || ref_has_bare_cr ln) with (bare_of (pre ++ [ln]))
           by (unfold bare_of; rewrite existsb_app; cbn [existsb]; now rewrite orb_false_r).
         rewrite (IH (pre ++ [ln]) Hrest Hnp'); [|now rewrite Hok'|now right].
-        rewrite Eg. cbn [pend]. now rewrite <- app_assoc.
+        cbn [pend]. now rewrite <- app_assoc.
       * cbn [ref_process].
         replace (pre ++ ln :: g) with ((pre ++ [ln]) ++ g) by now rewrite <- app_assoc.
-        rewrite lines_ok_app, Hok', El. reflexivity.
+        rewrite lines_ok_app, Hok'. reflexivity.
     + (* this line ends the field *)
       assert (Hgs : pend pre (match ref_groups rest with
                               | [] => [[ln]]
@@ -509,4 +509,281 @@ Proof.
     rewrite (loop_is_pipeline relaxed req ls [] (NN_lines _ _ _ Hnn Es) ltac:(constructor) eq_refl ltac:(now left)).
     destruct (ref_groups ls); reflexivity.
   - now apply loop_rem.
+Qed.
+
+(* ================================================================== 6. trimming and names, declaratively *)
+Lemma ltrim_exact l : exists a, l = a ++ ltrim l /\ forallb c_isspace a = true /\
+  match ltrim l with c :: _ => c_isspace c = false | [] => True end.
+Proof.
+  exists (fst (span c_isspace l)). unfold ltrim. split; [symmetry; apply span_app|].
+  split; [apply span_all|apply span_stop].
+Qed.
+
+Lemma last_is_rev_head p l : last_is p l = match rev l with c :: _ => p c | [] => false end.
+Proof. reflexivity. Qed.
+
+Lemma rtrim_exact l : exists b, l = rtrim l ++ b /\ forallb c_isspace b = true /\
+  last_is c_isspace (rtrim l) = false.
+Proof.
+  destruct (ltrim_exact (rev l)) as (a & Ha & Hs & Hf). exists (rev a). unfold rtrim. fold (ltrim (rev l)).
+  split; [|split].
+  - rewrite <- rev_app_distr, <- Ha. symmetry; apply rev_involutive.
+  - rewrite forallb_forall in *. intros x Hx. apply Hs. now apply in_rev.
+  - rewrite last_is_rev_head, rev_involutive. destruct (ltrim (rev l)); [reflexivity|exact Hf].
+Qed.
+
+(* the stored value is the maximal white-space-free-ended infix *)
+Theorem ref_trim_exact l : exists a b, l = a ++ ref_trim l ++ b /\
+  forallb ref_ows a = true /\ forallb ref_ows b = true /\
+  match ref_trim l with c :: _ => ref_ows c = false | [] => True end /\
+  last_is ref_ows (ref_trim l) = false.
+Proof.
+  unfold ref_trim. rewrite trim_right_rtrim, trim_left_ltrim.
+  destruct (ltrim_exact l) as (a & Ha & Hsa & Hfa). destruct (rtrim_exact (ltrim l)) as (b & Hb & Hsb & Hlb).
+  exists a, b. split; [now rewrite <- Hb|].
+  split; [erewrite forallb_eqf; [exact Hsa|apply ows_is_space]|].
+  split; [erewrite forallb_eqf; [exact Hsb|apply ows_is_space]|]. split.
+  - destruct (rtrim (ltrim l)) as [|c r] eqn:E; [exact I|]. rewrite ows_is_space.
+    rewrite Hb in Hfa. cbn [app] in Hfa. exact Hfa.
+  - rewrite last_is_rev_head in *. destruct (rev (rtrim (ltrim l))); [reflexivity|]. now rewrite ows_is_space.
+Qed.
+
+Lemma tbl_find_spec tbl name :
+  match tbl_find tbl name with
+  | Some (id, nm) => ci_eqb name nm = true /\ exists fl, In (id, nm, fl) tbl
+  | None => forall id nm fl, In (id, nm, fl) tbl -> ci_eqb name nm = false
+  end.
+Proof.
+  induction tbl as [|[[id nm] fl] r IH]; cbn [tbl_find].
+  - intros ? ? ? [].
+  - destruct (ci_eqb name nm) eqn:E.
+    + split; [exact E|]. exists fl. now left.
+    + destruct (tbl_find r name) as [[id' nm']|].
+      * destruct IH as (A & fl' & B). split; [exact A|]. exists fl'. now right.
+      * intros i n f [[= <- <- <-]|H]; [exact E|]. exact (IH _ _ _ H).
+Qed.
+
+Lemma ci_eqb_refl a : ci_eqb a a = true.
+Proof. unfold ci_eqb. induction (map lower a) as [|x l IH]; cbn [list_eqb]; [reflexivity|]. now rewrite N.eqb_refl. Qed.
+
+(* stored id and spelling: the registered record with the same name up to ASCII case, else (OTHER, as written) *)
+Theorem canon_name_exact name :
+  ci_eqb name (snd (canon_name name)) = true /\
+  ((exists fl, In (fst (canon_name name), snd (canon_name name), fl) hdr_table) \/
+   (canon_name name = (hdr_OTHER, name) /\ forall id nm fl, In (id, nm, fl) hdr_table -> ci_eqb name nm = false)).
+Proof.
+  unfold canon_name. pose proof (tbl_find_spec hdr_table name) as H.
+  destruct (tbl_find hdr_table name) as [[id nm]|]; cbn [fst snd].
+  - destruct H as (A & B). split; [exact A|now left].
+  - split; [apply ci_eqb_refl|right]. split; [reflexivity|exact H].
+Qed.
+
+(* ================================================================== 7. stored entries vs reference fields *)
+Definition not_cl (e : hentry) : bool := negb (he_id e =? ID_CL).
+Definition not_fr (e : hentry) : bool := negb (h_is_framing e).
+
+Lemma filter_filter_imp {A} (f g : A -> bool) l : (forall x, f x = true -> g x = true) ->
+  filter f (filter g l) = filter f l.
+Proof.
+  intros H. induction l as [|x l IH]; cbn [filter]; [reflexivity|].
+  destruct (g x) eqn:Eg; cbn [filter]; [now rewrite IH|].
+  destruct (f x) eqn:Ef; [rewrite (H x Ef) in Eg; discriminate|exact IH].
+Qed.
+
+Lemma filter_all {A} (f : A -> bool) l : forallb f l = true -> filter f l = l.
+Proof.
+  induction l as [|x l IH]; cbn [forallb filter]; [reflexivity|]. intros H.
+  apply andb_prop in H as [Hx Hl]. now rewrite Hx, (IH Hl).
+Qed.
+
+Lemma not_fr_not_cl e : not_fr e = true -> not_cl e = true.
+Proof. unfold not_fr, not_cl, h_is_framing. destruct (he_id e =? ID_CL); [discriminate|reflexivity]. Qed.
+
+Lemma entries_loop_keeps relaxed : forall es st kept st',
+  h_entries_loop relaxed es st = Some (kept, st') ->
+  filter not_cl kept = filter not_cl es /\ (forallb not_cl es = true -> kept = es /\ st' = st).
+Proof.
+  induction es as [|e es IH]; intros st kept st'; cbn [h_entries_loop].
+  - intros [= <- <-]. now split.
+  - cbn [filter forallb]. destruct (he_id e =? ID_CL) eqn:Ei.
+    + assert (Hn : not_cl e = false) by (unfold not_cl; now rewrite Ei). rewrite Hn. cbn [andb].
+      destruct (check_field relaxed st (he_value e)) as [k st1]. destruct k.
+      * destruct (h_entries_loop relaxed es st1) as [[k' s']|] eqn:E; [|discriminate].
+        intros [= <- <-]. cbn [filter]. rewrite Hn.
+        split; [exact (proj1 (IH _ _ _ E))|discriminate].
+      * destruct relaxed; [|discriminate]. intros H. split; [exact (proj1 (IH _ _ _ H))|discriminate].
+    + assert (Hn : not_cl e = true) by (unfold not_cl; now rewrite Ei). rewrite Hn. cbn [andb].
+      destruct (h_entries_loop relaxed es st) as [[k' s']|] eqn:E; [|discriminate].
+      intros [= <- <-]. cbn [filter]. rewrite Hn.
+      destruct (IH _ _ _ E) as [A B]. split; [now rewrite A|].
+      intros H. destruct (B H) as [-> ->]. now split.
+Qed.
+
+Lemma del_cl_is_filter l : h_del_id ID_CL l = filter not_cl l.
+Proof. reflexivity. Qed.
+
+Lemma cl_entry_is_cl v : not_cl (h_cl_entry v) = false.
+Proof. unfold not_cl, h_cl_entry. cbn [he_id]. now rewrite N.eqb_refl. Qed.
+
+Lemma post_process_keeps proh kept st :
+  filter not_fr (hr_entries (h_post_process proh kept st)) = filter not_fr kept /\
+  (proh = false -> filter not_cl (hr_entries (h_post_process proh kept st)) = filter not_cl kept) /\
+  (proh = false -> forallb not_cl kept = true -> st = cl_init -> hr_entries (h_post_process proh kept st) = kept).
+Proof.
+  unfold h_post_process. destruct proh.
+  - cbn [hr_entries]. split; [|split; discriminate].
+    unfold h_del_id. rewrite !filter_filter_imp; [reflexivity| |].
+    + intros x. apply not_fr_not_cl.
+    + intros x. unfold not_fr, h_is_framing. destruct (he_id x =? ID_TE); [rewrite orb_true_r; discriminate|reflexivity].
+  - destruct (h_has_id ID_TE kept); [|destruct (cl_sawBad st) eqn:Eb; [|destruct (cl_needsSan st) eqn:Es]];
+      cbn [hr_entries]; rewrite ?del_cl_is_filter.
+    + split; [apply filter_filter_imp, not_fr_not_cl|]. split; intros _.
+      * apply filter_filter_imp. auto.
+      * intros H. now apply filter_all.
+    + split; [apply filter_filter_imp, not_fr_not_cl|]. split; intros _.
+      * apply filter_filter_imp. auto.
+      * intros H. now apply filter_all.
+    + assert (Hx : forall f : hentry -> bool, (forall v, f (h_cl_entry v) = false) ->
+                filter f (filter not_cl kept ++ (if cl_sawGood st then [h_cl_entry (cl_value st)] else [])) =
+                filter f (filter not_cl kept)).
+      { intros f Hf. rewrite filter_app. destruct (cl_sawGood st); cbn [filter]; [rewrite Hf|]; apply app_nil_r. }
+      split; [|split; intros _].
+      * rewrite Hx; [apply filter_filter_imp, not_fr_not_cl|].
+        intros v. unfold not_fr. destruct (not_cl (h_cl_entry v)) eqn:E; [now rewrite cl_entry_is_cl in E|].
+        unfold not_cl in E. unfold h_is_framing. destruct (he_id (h_cl_entry v) =? ID_CL); [reflexivity|discriminate].
+      * rewrite Hx; [apply filter_filter_imp; auto|apply cl_entry_is_cl].
+      * intros _ ->. discriminate.
+    + split; [reflexivity|]. split; reflexivity.
+Qed.
+
+(* the stored entries of an accepted block are the reference fields, except for what HttpHeader::parse
+   does to Content-Length (drop / sanitise: property C26) and, for 1xx/204/trailers, Transfer-Encoding *)
+Theorem stored_fields relaxed req proh block r :
+  h_parse relaxed req proh block = Some r ->
+  exists fs, ref_fields relaxed req block = Some fs /\
+    filter not_fr (hr_entries r) = filter not_fr fs /\
+    (proh = false -> filter not_cl (hr_entries r) = filter not_cl fs) /\
+    (proh = false -> forallb not_cl fs = true -> hr_entries r = fs).
+Proof.
+  unfold h_parse. rewrite block_fields_is_reference.
+  destruct (ref_fields relaxed req block) as [fs|]; [|discriminate].
+  destruct (h_entries_loop relaxed fs cl_init) as [[kept st]|] eqn:E; [|discriminate].
+  intros [= <-]. exists fs. split; [reflexivity|].
+  destruct (entries_loop_keeps _ _ _ _ _ E) as [A B].
+  destruct (post_process_keeps proh kept st) as (P1 & P2 & P3).
+  split; [|split].
+  - rewrite P1. rewrite <- (filter_filter_imp not_fr not_cl kept not_fr_not_cl), A.
+    apply filter_filter_imp, not_fr_not_cl.
+  - intros Hp. now rewrite (P2 Hp).
+  - intros Hp Hf. destruct (B Hf) as [-> ->]. now apply P3.
+Qed.
+
+(* ================================================================== 8. what an accepted block looks like *)
+Lemma process_groups_ok relaxed req : forall gs es, ref_process relaxed req gs = Some es ->
+  forall g, In g gs -> ref_lines_ok relaxed req true g = true /\
+    (ref_group_text relaxed g = [] \/ exists e, ref_field relaxed req g = Some e).
+Proof.
+  induction gs as [|g0 rest IH]; intros es H g Hin; [destruct Hin|].
+  cbn [ref_process] in H. destruct (ref_lines_ok relaxed req true g0) eqn:Eo; [|discriminate]. cbn [negb] in H.
+  destruct (ref_group_text relaxed g0) as [|b l] eqn:Et.
+  - destruct rest; [|discriminate]. destruct Hin as [<-|[]]. split; [exact Eo|now left].
+  - destruct (ref_field relaxed req g0) as [e|] eqn:Ef; [|discriminate].
+    destruct (ref_process relaxed req rest) as [es'|] eqn:Er; [|discriminate].
+    destruct Hin as [<-|Hin].
+    + split; [exact Eo|]. right. rewrite Et in *. eauto.
+    + exact (IH _ eq_refl g Hin).
+Qed.
+
+Lemma accepted_groups relaxed req proh block r :
+  h_parse relaxed req proh block = Some r ->
+  exists ls, ref_lines block = Some ls /\
+    forall g, In g (ref_groups ls) -> ref_lines_ok relaxed req true g = true /\
+      (ref_group_text relaxed g = [] \/ exists e, ref_field relaxed req g = Some e).
+Proof.
+  unfold h_parse. rewrite block_fields_is_reference. unfold ref_fields.
+  destruct (existsb (N.eqb 0) block); [discriminate|].
+  destruct (ref_lines block) as [ls|]; [|discriminate].
+  destruct (ref_process relaxed req (ref_groups ls)) as [es|] eqn:E; [|discriminate].
+  intros _. exists ls. split; [reflexivity|]. exact (process_groups_ok _ _ _ _ E).
+Qed.
+
+Lemma lines_ok_in relaxed req : forall g first ln, ref_lines_ok relaxed req first g = true -> In ln g ->
+  exists f, ref_line_ok relaxed req f ln = true.
+Proof.
+  induction g as [|x g IH]; intros first ln H Hin; [destruct Hin|].
+  cbn [ref_lines_ok] in H. apply andb_prop in H as [Hx Hg]. destruct Hin as [<-|Hin]; [eauto|eauto].
+Qed.
+
+Lemma in_concat_groups ls ln : In ln ls -> exists g, In g (ref_groups ls) /\ In ln g.
+Proof. intros H. rewrite <- (ref_groups_concat ls) in H. apply in_concat in H as (g & A & B). eauto. Qed.
+
+Lemma strip_last_snoc a (c : N) : strip_last (a ++ [c]) = a.
+Proof. unfold strip_last. rewrite rev_unit. cbn [tl]. apply rev_involutive. Qed.
+
+(* a request line made of CRs only (CR CR+ LF) is never accepted *)
+Theorem rejects_cr_only_line relaxed proh block ls ln :
+  ref_lines block = Some ls -> In ln ls -> forallb is_cr ln = true -> 2 <= lenN ln ->
+  h_parse relaxed true proh block = None.
+Proof.
+  intros Hl Hin Hcr Hlen. destruct (h_parse relaxed true proh block) as [r|] eqn:E; [|reflexivity]. exfalso.
+  destruct (accepted_groups _ _ _ _ _ E) as (ls' & Hl' & Hg). rewrite Hl in Hl'. injection Hl' as <-.
+  destruct (in_concat_groups ls ln Hin) as (g & Hgin & Hlg).
+  destruct (Hg g Hgin) as [Hok _]. destruct (lines_ok_in _ _ _ _ _ Hok Hlg) as (f & Hf).
+  destruct (list_snoc_cases ln) as [->|(a & c & ->)]; [cbn [lenN] in Hlen; lia|].
+  rewrite forallb_app in Hcr. apply andb_prop in Hcr as [Ha Hc]. cbn [forallb] in Hc. rewrite andb_true_r in Hc.
+  unfold ref_line_ok, ref_body, ref_ends_cr in Hf. rewrite last_is_snoc, Hc, strip_last_snoc, Ha in Hf.
+  rewrite lenN_snoc in Hlen. replace (lenN a =? 0) with false in Hf by lia. discriminate.
+Qed.
+
+(* white space between field name and colon: the field-line (lines of the group joined) is not accepted in a request *)
+Lemma req_split_ws text rn rv : ref_before_colon text = Some (rn, rv) -> last_is c_isspace rn = true ->
+  ref_split true text = None.
+Proof.
+  intros Hb Hl. unfold ref_split. rewrite Hb.
+  destruct (forallb cs_TCHAR rn) eqn:Ht.
+  - destruct (last_is_forall _ _ _ Ht Hl) as (c & Hc & Hs). destruct (tchar_facts c Hc) as (A & _). congruence.
+  - cbn [negb]. now rewrite !orb_true_r.
+Qed.
+
+Theorem rejects_ws_before_colon relaxed proh block ls g rn rv :
+  ref_lines block = Some ls -> In g (ref_groups ls) ->
+  ref_before_colon (ref_group_text relaxed g) = Some (rn, rv) -> last_is c_isspace rn = true ->
+  h_parse relaxed true proh block = None.
+Proof.
+  intros Hl Hin Hb Hws. destruct (h_parse relaxed true proh block) as [r|] eqn:E; [|reflexivity]. exfalso.
+  destruct (accepted_groups _ _ _ _ _ E) as (ls' & Hl' & Hg). rewrite Hl in Hl'. injection Hl' as <-.
+  destruct (Hg g Hin) as [_ [Ht|(e & He)]].
+  - rewrite Ht in Hb. discriminate.
+  - unfold ref_field in He. rewrite (req_split_ws _ _ _ Hb Hws) in He. discriminate.
+Qed.
+
+(* the same at the level of HttpHeaderEntry::parse *)
+Theorem entry_rejects_ws_before_colon name w rest :
+  forallb (fun c => negb (c =? 58)) name = true -> c_isspace w = true ->
+  h_entry_parse true (name ++ w :: 58 :: rest) = None.
+Proof.
+  intros Hn Hw. rewrite entry_parse_ref.
+  assert (Hb : ref_before_colon (name ++ w :: 58 :: rest) = Some (name ++ [w], rest)).
+  { induction name as [|c r IH]; cbn [app ref_before_colon].
+    - destruct (w =? 58) eqn:E; [apply N.eqb_eq in E; subst w; discriminate|]. now rewrite N.eqb_refl.
+    - cbn [forallb] in Hn. apply andb_prop in Hn as [Hc Hr]. destruct (c =? 58); [discriminate|].
+      now rewrite (IH Hr). }
+  rewrite (req_split_ws _ _ _ Hb); [reflexivity|]. now rewrite last_is_snoc.
+Qed.
+
+(* obs-fold or bare CR in Content-Length / Transfer-Encoding *)
+Theorem rejects_suspicious_framing relaxed req proh block r :
+  h_parse relaxed req proh block = Some r ->
+  exists ls, ref_lines block = Some ls /\
+    forall g name value, In g (ref_groups ls) ->
+      (1 <? lenN g) || existsb ref_has_bare_cr g = true ->
+      ref_split req (ref_group_text relaxed g) = Some (name, value) ->
+      fst (canon_name name) <> ID_CL /\ fst (canon_name name) <> ID_TE.
+Proof.
+  intros E. destruct (accepted_groups _ _ _ _ _ E) as (ls & Hl & Hg). exists ls. split; [exact Hl|].
+  intros g name value Hin Hs Hsp. destruct (Hg g Hin) as [_ [Ht|(e & He)]].
+  - rewrite Ht in Hsp. discriminate.
+  - unfold ref_field in He. rewrite Hsp, Hs in He. destruct (canon_name name) as [id nm]. cbn [fst].
+    unfold h_is_framing in He. cbn [he_id andb] in He.
+    destruct (id =? ID_CL) eqn:E1, (id =? ID_TE) eqn:E2; cbn [orb] in He; try discriminate. split; lia.
 Qed.
